@@ -290,6 +290,14 @@ func guardExits(h *ssa.Function, cl *ssa.Call, g ir.Guard, depth int) (bad []hel
 
 // liftCall: as liftGuard, for "every path executes a call satisfying pred".
 func liftCall(fn *ssa.Function, pred func(ssa.CallInstruction) bool, depth int) []liftedCall {
+	return liftInstr(fn, func(in ssa.Instruction) bool {
+		ci, ok := in.(ssa.CallInstruction)
+		return ok && pred(ci)
+	}, depth)
+}
+
+// liftInstr: as liftCall for an arbitrary obligatory instruction (a store, a map update …).
+func liftInstr(fn *ssa.Function, pred func(ssa.Instruction) bool, depth int) []liftedCall {
 	if depth > 2 {
 		return nil
 	}
@@ -314,11 +322,18 @@ func liftCall(fn *ssa.Function, pred func(ssa.CallInstruction) bool, depth int) 
 	return out
 }
 
-func callExits(h *ssa.Function, cl *ssa.Call, pred func(ssa.CallInstruction) bool, depth int) (bad []helperExit, good int) {
+func callExits(h *ssa.Function, cl *ssa.Call, pred func(ssa.Instruction) bool, depth int) (bad []helperExit, good int) {
 	undo := ir.BindParams(h, cl.Common().Args)
 	defer undo()
-	direct := ir.Calls(h, pred)
-	inner := liftCall(h, pred, depth+1)
+	var direct []ssa.Instruction
+	for _, b := range h.Blocks {
+		for _, in := range b.Instrs {
+			if pred(in) {
+				direct = append(direct, in)
+			}
+		}
+	}
+	inner := liftInstr(h, pred, depth+1)
 	if len(direct) == 0 && len(inner) == 0 {
 		return nil, 0
 	}
@@ -421,6 +436,14 @@ func sinkFailsInScenario(s ir.Sink, cl *ssa.Call, known []exitKnown) bool {
 		return false
 	}
 	last := ret.Results[len(ret.Results)-1]
+	// `if err == nil { err = h(...) }; return err`: the sink is one incoming edge of the phi
+	if phi, isPhi := last.(*ssa.Phi); isPhi && s.Via != nil && phi.Block() == ret.Block() {
+		for i, p := range ret.Block().Preds {
+			if p == s.Via.From && i < len(phi.Edges) {
+				last = phi.Edges[i]
+			}
+		}
+	}
 	idx := -1
 	v := ir.Strip(last)
 	if v == ssa.Value(cl) {
